@@ -1,5 +1,4 @@
 use nom::{
-    bytes::complete::tag,
     combinator::{map, opt},
     sequence::preceded,
     Parser,
@@ -19,7 +18,7 @@ use super::{common::*, constraint::constraints, error::ParserResult};
 /// If the match fails, the lexer will not consume the input and will return an error.
 pub fn octet_string(input: Input<'_>) -> ParserResult<'_, ASN1Type> {
     map(
-        preceded(skip_ws_and_comments(tag(OCTET_STRING)), opt(constraints)),
+        preceded(skip_ws_and_comments(keyword_pair(OCTET_STRING)), opt(constraints)),
         |m| ASN1Type::OctetString(m.into()),
     )
     .parse(input)
